@@ -33,13 +33,16 @@ func c07Scenarios() []histParams {
 	ev := []string{"tx:U1:R1", "inv:T:R1", "tx:T:R1", "ans", "tx:U1:D1", "tx:U1:D2", "tx:T:D1", "tx:T:R3", "tx:U1:M2", "local:R3", "tick:100", "tick:1900", "tick:2300", "mine+:R1", "mine+:", "restart"}
 	// a conflicting tx confirmed while the node was down / catching up
 	focus := []string{"tx:T:R1", "tx:U1:R1", "inv:T:R1", "offline:D2", "offline:", "restart", "tick:1900", "tick:2300"}
+	// two untrusted peers: the one that was not asked re-requests after the window and delivers; the trusted peer never vouches
+	two := []string{"inv:U1:R1", "inv:U2:R1", "tick:3100", "uping:U2", "uans:U2", "uans:U1", "tick:2300"}
 	return []histParams{{Prop: "C07", Cfg: txCfg(1), Boot: "synced", Events: ev, Tx: true, Live: true},
-		{Prop: "C07", Cfg: txCfg(1), Boot: "synced", Events: focus, Tx: true, Live: true}}
+		{Prop: "C07", Cfg: txCfg(1), Boot: "synced", Events: focus, Tx: true, Live: true},
+		{Prop: "C07", Cfg: txCfg(2), Boot: "synced", Events: two, Tx: true, ExtraDepth: 2}}
 }
 
 func c11Scenarios() []histParams {
 	ev := []string{"tx:T:R1", "tx:U1:R1", "tx:U1:D1", "inv:T:R1", "ans", "tick:2300", "restart", "restart:raw", "mine+:R1", "mine+:", "settle"}
-	deep := []string{"tx:T:R1", "tx:U1:D1", "tick:2300", "restart", "mine+:R1", "mine+:"}
+	deep := []string{"tx:T:R1", "tx:U1:D1", "tick:2300", "restart", "mine+:R1", "mine+:D1", "mine+:"}
 	// the application subscribes its filter only after the restarted node is already running
 	late := []string{"tx:T:R1", "tick:2300", "restart:late", "tx:U1:R1", "tx:T:R1", "sub", "mine+:R1"}
 	return []histParams{{Prop: "C11", Cfg: txCfg(1), Boot: "synced", Events: ev, Tx: true, Live: true},
@@ -54,7 +57,9 @@ func c14Scenarios() []histParams {
 	two := []string{"inv:U1:R1", "inv:U2:R1", "uans:U1", "mineq:R1", "mine+:R1", "uping:U2", "tick:3100"}
 	return []histParams{{Prop: "C14", Cfg: txCfg(2), Boot: "synced", Events: ev, Tx: true},
 		{Prop: "C14", Cfg: txCfg(1), Boot: "synced", Events: deep, Tx: true, ExtraDepth: 2},
-		{Prop: "C14", Cfg: txCfg(2), Boot: "synced", Events: two, Tx: true, ExtraDepth: 2}}
+		{Prop: "C14", Cfg: txCfg(2), Boot: "synced", Events: two, Tx: true, ExtraDepth: 2},
+		// the trusted peer's in-sync flag is cleared (fork announced, bodies outstanding) while untrusted peers deliver
+		{Prop: "C14", Cfg: txCfg(2), Boot: "synced", Events: []string{"reorg:1:2", "inv:U1:R1", "uans:U1", "inv:U2:R1", "uping:U2", "tick:3100"}, Tx: true, ExtraDepth: 2}}
 }
 
 var histSched = map[string]func() []nschedTask{
